@@ -31,7 +31,7 @@ PROPS["C02"] = {
     "modules": ["C02"],
     "required_theorems": ["C02_holds", "step_ban"],
     "monitors": ["C02"],
-    "fields": ["ret", "net", "pj", "pd", "sj"],
+    "fields": ["ret", "net", "pj", "sj"],
     "campaign": camp([("lifecycle", 400), ("mixed", 300), ("rollback", 200), ("chaos", 200), ("release", 100), ("signing", 100)],
                      [("lifecycle", 6000), ("mixed", 5000), ("rollback", 3000), ("chaos", 3000), ("release", 2000), ("signing", 2000), ("damage", 2000)]),
     "assumptions": ["the guarantee is stated (as in the property) for as long as the release stays and the state files are not damaged from outside: the monitor forgets its failed set at a release change or state-file damage",
@@ -42,7 +42,7 @@ PROPS["C10"] = {
     "modules": ["C10"],
     "required_theorems": ["C10_holds", "step_roll"],
     "monitors": ["C10"],
-    "fields": ["ret", "net", "pj", "pd", "sj"],
+    "fields": ["ret", "pj", "pd", "sj"],
     "campaign": camp([("rollback", 500), ("lifecycle", 300), ("mixed", 300), ("chaos", 150), ("release", 100)],
                      [("rollback", 8000), ("lifecycle", 5000), ("mixed", 4000), ("chaos", 3000), ("release", 2000), ("damage", 2000), ("signing", 2000)]),
     "assumptions": ["as in the property, the guarantee lasts until the number is installed again; the monitor also forgets at a release change and at state-file damage"],
@@ -50,14 +50,14 @@ PROPS["C10"] = {
 
 PROPS["C19"] = {
     "modules": ["C19"], "required_theorems": ["C19_holds"], "monitors": ["C19"],
-    "fields": ["ret", "net", "pj", "pd", "sj"],
+    "fields": ["ret", "pj", "pd", "sj"],
     "campaign": camp([("lifecycle", 400), ("rollback", 300), ("mixed", 300), ("release", 150), ("chaos", 150)],
                      [("lifecycle", 6000), ("rollback", 5000), ("mixed", 4000), ("release", 2500), ("chaos", 2500), ("damage", 2000), ("signing", 2000)]),
     "assumptions": ["clause (iv) is stated for a pending patch that is not the one currently booting (such a patch is kept: it becomes the last good patch on success)"],
 }
 PROPS["C08"] = {
     "modules": ["C08"], "required_theorems": ["C08_holds"], "monitors": ["C08"],
-    "fields": ["ret", "net", "pj", "pd", "sj", "sje"],
+    "fields": ["ret", "pj", "pd", "sj", "sje"],
     "campaign": camp([("release", 600), ("mixed", 300), ("damage", 200), ("chaos", 200)],
                      [("release", 10000), ("mixed", 4000), ("damage", 3000), ("chaos", 3000), ("strings", 2000)]),
     "assumptions": ["interruption of the first launch of the new release is C04"],
@@ -103,7 +103,7 @@ PROPS["C06"] = {
 }
 PROPS["C20"] = {
     "modules": ["C20"], "required_theorems": ["C20_holds"], "monitors": ["C20"],
-    "fields": ["ret", "net", "sj", "sje"],
+    "fields": ["net", "sj", "sje"],
     "campaign": camp([("strings", 600), ("mixed", 300), ("lifecycle", 200), ("init", 200), ("chaos", 150)],
                      [("strings", 10000), ("mixed", 5000), ("lifecycle", 4000), ("init", 3000), ("chaos", 3000)]),
     "assumptions": ["AppConsistent: the compiled-in app id is the same at every initialisation of a history, and stale state.json files are earlier versions of the same file"],
@@ -111,7 +111,7 @@ PROPS["C20"] = {
 
 PROPS["C12"] = {
     "modules": ["C12"], "required_theorems": ["acts_wellFormed", "acts_sectionsAtomic", "progress", "busy_update_inert"], "monitors": ["C12"],
-    "fields": ["locks", "net", "ret"],
+    "fields": ["locks", "net"],
     "campaign": camp([("network", 400), ("mixed", 400), ("download", 300), ("chaos", 300), ("rollback", 200)],
                      [("network", 6000), ("mixed", 6000), ("download", 4000), ("chaos", 4000), ("rollback", 3000), ("lifecycle", 3000)]),
     "assumptions": ["std::sync::Mutex semantics; 'promptly' (latency) is runtime: the model shows the absence of blocking dependencies",
@@ -137,6 +137,8 @@ PROPS["C16"] = {
 
 PROPS["C15"] = {
     "kind": "abi",
+    "monitors": ["C15"], "fields": ["ret"],
+    "campaign": camp([("lifecycle", 200), ("mixed", 150)], [("lifecycle", 3000), ("mixed", 3000), ("download", 2000)]),
     "modules": ["C15"],
     "required_theorems": ["status_discriminants", "error_code", "status_constants", "header_agrees_with_rust", "dart_agrees_with_rust",
                           "structs_agree", "layouts_defined", "update_result_layout", "path_roundtrip", "result_roundtrip", "double_free_flagged"],
